@@ -72,6 +72,17 @@ CLAIMED = {
         technique="Rocq proof (induction over nested requests; exhaustive finite-table conformance by vm_compute + forallb lifting; refutation witnesses) + translator-regenerated machine tables + in-Coq differential correspondence on random machines",
         design="5/C18",
     ),
+    "C19": dict(
+        text="Theorems (Props/C19.v): the tokenizer splits any layout of a token sequence - any whitespace, any comments anywhere - into exactly those tokens "
+             "(C19_layout_irrelevant, induction over tokens and layout elements); the documentation's own examples generate the documented shapes and keys "
+             "(C19_documented_examples); bracket/name errors are rejected on instances (C19_rejection_examples); the naming heuristic's failure is proved "
+             "(C19_name_handdown_refuted, known finding). The general shape statement (any well-formed definition yields doc_shape) is decided by the differential "
+             "correspondence of the model (tokenizer, validation, _generate_from_sfdl, generate) with the code and with the documented-shape specification on random "
+             "definitions; it is not yet a theorem.",
+        note=NOTE_COMMON + " The data item attribute table is regenerated reflectively (imports /repo's secsgem.secs.data_items). Empty lists are outside the documented grammar.",
+        technique="Rocq proof (lexer layout lemma; computed instances) + translator-regenerated data item table + in-Coq differential correspondence against the documented-shape specification",
+        design="5/C19",
+    ),
 }
 
 NOT_YET = {}
